@@ -86,7 +86,7 @@ class LifecycleObserver:
             rem = snap['cache'][ob].get(name)
             invoked = len(ctx['trace']) - snap['trace']
             if expl is not None:
-                exp = expl() if (callable(expl) and expl.__code__.co_argcount == 0) else (expl(objs[ob]) if callable(expl) else expl)
+                exp = expl() if (callable(expl) and X.FN_KIND[id(expl)][0] == 'fn0') else (expl(objs[ob]) if callable(expl) else expl)
                 if out[0] != 'val' or not same(X.Values().model(exp) if not callable(exp) else None, out[1]) and not callable(exp):
                     self.fail = f"read of explicit {name} on object {ob} gave {out}, explicit value was {expl!r}"
                 elif invoked:
